@@ -104,13 +104,41 @@ def r1_protection(ctx):
                body.loc(bb, t), 'client() and finalize() are applied to the same session place: %s' % recv)
 
 
+def _cookie_builders(ctx):
+    """bodies of pavex_session that construct or configure a biscotti cookie: Session::finalize plus the helpers it (transitively) calls
+    for that purpose. A helper counts only if every one of its callers inside the crate is finalize or another such helper."""
+    BUILD = re.compile(r'biscotti::(response_cookie::ResponseCookie|removal::RemovalCookie)::(new|set_\w+)$')
+    direct = {}
+    callers = {}
+    for b in ctx.fb.bodies(CR):
+        if b.is_promoted:
+            continue
+        for bb, t in b.calls():
+            c = callee(t) or ''
+            if BUILD.match(c):
+                direct.setdefault(b.nroot, []).append((b, bb, t))
+            if c.startswith('pavex_session::'):
+                callers.setdefault(strip_generics(c), set()).add(b.nroot)
+    ok = {FINALIZE}
+    changed = True
+    while changed:
+        changed = False
+        for h in direct:
+            if h in ok:
+                continue
+            cs = callers.get(h, set())
+            if cs and cs <= ok:
+                ok.add(h)
+                changed = True
+    return direct, ok, callers
+
+
 def r2_who_builds_cookies(ctx):
     ctx.rule('C12.R2', 'P3 who-may-call: within pavex_session, ResponseCookies::insert is called only by finalize_session; '
-             'ResponseCookie::new / RemovalCookie::new only by Session::finalize; Session::finalize only by finalize_session.')
+             'ResponseCookie / RemovalCookie are constructed and configured only by Session::finalize and by helpers whose only callers are '
+             'Session::finalize or such helpers; Session::finalize only by finalize_session.')
     allowed = {
         INSERT: {'pavex_session::middleware::finalize_session'},
-        'biscotti::response_cookie::ResponseCookie::new': {M + 'Session::finalize'},
-        'biscotti::removal::RemovalCookie::new': {M + 'Session::finalize'},
         FINALIZE: {'pavex_session::middleware::finalize_session'},
     }
     seen = {k: 0 for k in allowed}
@@ -123,8 +151,19 @@ def r2_who_builds_cookies(ctx):
                 seen[c] += 1
                 ctx.ob('C12.R2', 'caller|%s|%s' % (c.split('::')[-2] + '::' + c.split('::')[-1], b.nroot.replace('pavex_session::', '')),
                        b.nroot in allowed[c], b.loc(bb, t), '%s called from %s' % (c, b.nroot))
-    for c, n in seen.items():
-        ctx.floor('C12.R2', 'call sites of %s (positive control)' % c, n, 1)
+    direct, ok, callers = _cookie_builders(ctx)
+    n = 0
+    for h, sites in sorted(direct.items()):
+        for b, bb, t in sites:
+            c = callee(t)
+            if not c.endswith('::new'):
+                continue
+            n += 1
+            ctx.ob('C12.R2', 'caller|%s|%s' % (c.split('::')[-2] + '::' + c.split('::')[-1], h.replace('pavex_session::', '')), h in ok, b.loc(bb, t),
+                   '%s called from %s%s' % (c, h, '' if h in ok else ' (also reachable from %s)' % sorted(callers.get(h, set()) - ok)))
+    seen['cookie constructors'] = n
+    for c, k in seen.items():
+        ctx.floor('C12.R2', 'call sites of %s (positive control)' % c, k, 1 if c != 'cookie constructors' else 2)
 
 
 SETTERS = {
@@ -210,51 +249,62 @@ def r3_attribute_plumbing(ctx):
     if not fields or body is None:
         return
     fields = set(fields) | {'ttl'}
-    defs = Defs(body)
     seen = {'ResponseCookie': set(), 'RemovalCookie': set()}
-    for bb, t in body.calls():
-        c = callee(t) or ''
-        m = re.match(r'biscotti::(response_cookie::ResponseCookie|removal::RemovalCookie)::(\w+)$', c)
-        if not m:
-            continue
-        kind = m.group(1).split('::')[1]
-        meth = m.group(2)
-        table = {k: v[0] for k, v in SETTERS.items()} if kind == 'ResponseCookie' else REMOVAL_SETTERS
-        if meth not in table:
-            continue
-        gov = set()
-        # value arguments (skip the receiver for setters)
-        args = t['args'] if meth == 'new' else t['args'][1:]
-        if meth == 'new':
-            args = t['args'][:1]  # the name; the value is the serialized client state
-        state_reads = set()
-        for a in args:
-            pl = op_place(a)
-            if pl is not None:
-                sl, _ = backward_slice(body, pl['l'], defs)
-                gov |= _field_reads(sl, fields)
-                state_reads |= _session_state_reads(sl)
-        for sb, st in _controlling_switches(body, bb):
-            pl = op_place(st['d'])
-            if pl is not None:
-                sl, _ = backward_slice(body, pl['l'], defs)
-                gov |= _field_reads(sl, fields)
-            if 'src' in st:
-                sl, _ = backward_slice(body, st['src']['l'], defs)
-                gov |= _field_reads(sl, fields)
-                gov |= {el[2:] for el in st['src'].get('p', []) if el.startswith('f:') and el[2:] in fields}
-        # `name` governs every call trivially through the constructor chain; only compare the non-name part for setters
-        if meth != 'new':
-            gov.discard('name')
-        # setters nested under an outer attribute-independent branch are fine; they must not be governed by ANOTHER attribute
-        want = table[meth]
-        seen[kind].add(meth)
-        ctx.ob('C12.R3', 'governed|%s::%s' % (kind, meth), gov == want, body.loc(bb, t),
-               '%s::%s is governed by config field(s) %s (documented: %s)' % (kind, meth, sorted(gov), sorted(want)))
-        if state_reads:
-            ctx.ob('C12.R3', 'config-only|%s::%s' % (kind, meth), False, body.loc(bb, t),
-                   'the value given to %s::%s also derives from the session\'s run-time state (%s): the attribute is no longer the configured one' % (
-                       kind, meth, sorted(state_reads)))
+    direct, okset, _ = _cookie_builders(ctx)
+    work = []
+    for h, sites in direct.items():
+        if h in okset:
+            for hb in {id(x[0]): x[0] for x in sites}.values():
+                work.append(hb)
+    if body not in work:
+        work.append(body)
+    fin_body = body
+    for body in work:
+      defs = Defs(body)
+      for bb, t in body.calls():
+          c = callee(t) or ''
+          m = re.match(r'biscotti::(response_cookie::ResponseCookie|removal::RemovalCookie)::(\w+)$', c)
+          if not m:
+              continue
+          kind = m.group(1).split('::')[1]
+          meth = m.group(2)
+          table = {k: v[0] for k, v in SETTERS.items()} if kind == 'ResponseCookie' else REMOVAL_SETTERS
+          if meth not in table:
+              continue
+          gov = set()
+          # value arguments (skip the receiver for setters)
+          args = t['args'] if meth == 'new' else t['args'][1:]
+          if meth == 'new':
+              args = t['args'][:1]  # the name; the value is the serialized client state
+          state_reads = set()
+          for a in args:
+              pl = op_place(a)
+              if pl is not None:
+                  sl, _ = backward_slice(body, pl['l'], defs)
+                  gov |= _field_reads(sl, fields)
+                  state_reads |= _session_state_reads(sl)
+          for sb, st in _controlling_switches(body, bb):
+              pl = op_place(st['d'])
+              if pl is not None:
+                  sl, _ = backward_slice(body, pl['l'], defs)
+                  gov |= _field_reads(sl, fields)
+              if 'src' in st:
+                  sl, _ = backward_slice(body, st['src']['l'], defs)
+                  gov |= _field_reads(sl, fields)
+                  gov |= {el[2:] for el in st['src'].get('p', []) if el.startswith('f:') and el[2:] in fields}
+          # `name` governs every call trivially through the constructor chain; only compare the non-name part for setters
+          if meth != 'new':
+              gov.discard('name')
+          # setters nested under an outer attribute-independent branch are fine; they must not be governed by ANOTHER attribute
+          want = table[meth]
+          seen[kind].add(meth)
+          ctx.ob('C12.R3', 'governed|%s::%s' % (kind, meth), gov == want, body.loc(bb, t),
+                 '%s::%s is governed by config field(s) %s (documented: %s)' % (kind, meth, sorted(gov), sorted(want)))
+          if state_reads:
+              ctx.ob('C12.R3', 'config-only|%s::%s' % (kind, meth), False, body.loc(bb, t),
+                     'the value given to %s::%s also derives from the session\'s run-time state (%s): the attribute is no longer the configured one' % (
+                         kind, meth, sorted(state_reads)))
+    body = fin_body
     for kind, table in (('ResponseCookie', set(SETTERS)), ('RemovalCookie', set(REMOVAL_SETTERS))):
         missing = table - seen[kind]
         ctx.ob('C12.R3', 'all-setters-present|%s' % kind, not missing, body.loc(),
